@@ -629,7 +629,11 @@ func runClientDial(c caseT) (o outcome, err error) {
 	}()
 	ctx, cancel := context.WithCancel(context.Background())
 	defer cancel()
-	d := &uacp.Dialer{ClientACK: &uacp.Acknowledge{ReceiveBufSize: 65535, SendBufSize: 65535}}
+	// The limits the client enforces on what it RECEIVES are the ones it announces
+	// in its own Hello (the Acknowledge of the server bounds what the client may
+	// send). Before the handshake repair 8ec36ac the client adopted the server's
+	// values; the harness configures the client itself now.
+	d := &uacp.Dialer{ClientACK: &uacp.Acknowledge{ReceiveBufSize: c.Buf, SendBufSize: c.Buf, MaxChunkCount: c.MaxChunks, MaxMessageSize: 1 << 20}}
 	dctx, dcancel := context.WithTimeout(ctx, 10*time.Second)
 	defer dcancel()
 	conn, err := d.Dial(dctx, ln.Endpoint())
@@ -855,6 +859,21 @@ func TestReplay(t *testing.T) {
 	}
 	if rp == nil {
 		t.Skip("no VERIF_REPLAY")
+	}
+	if rp.Test == "TestOPNResponseMidStream" {
+		var oc opnMidT
+		if err := json.Unmarshal(rp.Case, &oc); err != nil {
+			t.Fatal(err)
+		}
+		fmt.Println("REPLAYED structured")
+		msg, infra := runOPNMid(oc)
+		if infra != nil {
+			t.Skipf("no verdict: %v", infra)
+		}
+		if msg != "" {
+			t.Fatalf("property C13 violated: %s", msg)
+		}
+		return
 	}
 	var c caseT
 	if err := json.Unmarshal(rp.Case, &c); err != nil {
